@@ -326,7 +326,9 @@ def replay(cfg, label, env, case):
     except Exception as e:
         if want_exc is not None:
             return dict(reproduced=type(e).__name__ == want_exc, detail="%s: %s" % (type(e).__name__, str(e)[:300]))
-        return dict(reproduced=None, detail="concrete run raised %s: %s" % (type(e).__name__, str(e)[:300]))
+        from .common import _raised_in_repo
+        return dict(reproduced=(True if _raised_in_repo(e) else None),
+                    detail="concrete run raised %s: %s" % (type(e).__name__, str(e)[:300]))
     if want_exc is not None:
         return dict(reproduced=False, detail="no exception on the real library")
     bad, det = obs["_clauses"].evaluate(label)
